@@ -43,6 +43,8 @@ pub struct OracleState {
 	/// (node, chan, message): protocol errors about a channel the emitter no longer has, judged
 	/// once the emitter's ChannelClosed event has told why
 	pub suspect_errors: Vec<(usize, usize, String)>,
+	/// (node, chan) -> step at which a ChannelForceClosed{should_broadcast: true} update reached Watch
+	pub fc_update_step: BTreeMap<(usize, usize), u64>,
 }
 
 impl World {
@@ -761,6 +763,12 @@ impl World {
 		for c in calls {
 			self.hist = simcore::fnv_extend(self.hist, &c.update_id.to_le_bytes());
 			self.out.bump("oracle:C09-1 gap-free update ids at Watch");
+			if c.steps.iter().any(|(k, d)| *k == "ChannelForceClosed" && d == "true") {
+				if let Some(ci) = self.chans.iter().position(|x| x.channel_id.0 == c.chan) {
+					let step = self.step;
+					self.oracle.fc_update_step.entry((n, ci)).or_insert(step);
+				}
+			}
 			if !c.new_channel && self.nodes[n].check_styles {
 				let b = c.update_bytes.clone();
 				self.shadow_update(n, c.chan, &b);
@@ -1045,12 +1053,24 @@ impl World {
 				_ => false,
 			};
 			if before {
+				// who broadcast it: the ChannelManager through a ChannelForceClosed monitor update
+				// (which a crash can lose), or the ChannelMonitor on its own while processing a block
+				let ci = self.chans.iter().position(|c| tx.input.iter().any(|i| i.previous_output == c.funding));
+				let by_update = ci
+					.and_then(|ci| self.oracle.fc_update_step.get(&(n, ci)).cloned())
+					.map(|s| s <= handed.unwrap_or(0))
+					.unwrap_or(false);
+				let ctx = if by_update {
+					"[the ChannelForceClosed monitor update was not durable when the node crashed; the restarted node resumed the channel]"
+				} else {
+					"[the ChannelMonitor broadcast it on its own while processing chain data; no ChannelForceClosed update had been issued]"
+				};
 				self.violate(
 					"C05",
 					"C05-2 holder commitment revoked after it had been broadcast",
 					format!(
-						"node {} handed its commitment {} ({}) to the broadcaster at step {} and released that commitment's revocation secret at step {} [the ChannelForceClosed monitor update was not durable when the node crashed; the restarted node resumed the channel]",
-						n, num, txid, handed.unwrap_or(0), released_at.unwrap_or(0)
+						"node {} handed its commitment {} ({}) to the broadcaster at step {} and released that commitment's revocation secret at step {} {}",
+						n, num, txid, handed.unwrap_or(0), released_at.unwrap_or(0), ctx
 					),
 				);
 			} else {
